@@ -254,12 +254,12 @@ Section LWrites.
 
   (* LPUSH / RPUSH refine, unless the 2^61 sequence numbers on that side of the list are used up *)
   Theorem lpush_ref clock ts key tail vs l : Rep clock l -> 0 <= clock < ts ->
-    push_in_bounds l tail (Z.of_nat (length vs)) ->
+    (too_many vs = false -> push_in_bounds l tail (Z.of_nat (length vs))) ->
     snd (MapL.lstep compact ts key (LCpush tail vs) l) = snd (SpecL.lstep key (LCpush tail vs) (abs_l l)) /\
     abs_l (fst (MapL.lstep compact ts key (LCpush tail vs) l)) = fst (SpecL.lstep key (LCpush tail vs) (abs_l l)).
   Proof.
-    intros R L PB. pose proof (abs_length compact clock l R) as AL.
-    cbn [MapL.lstep SpecL.lstep]. destruct (too_many vs); [split; reflexivity|].
+    intros R L PB0. pose proof (abs_length compact clock l R) as AL.
+    cbn [MapL.lstep SpecL.lstep]. destruct (too_many vs); [split; reflexivity|]. pose proof (PB0 eq_refl) as PB. clear PB0.
     destruct (negb (key_ok key)); [split; reflexivity|].
     destruct vs as [|x0 r0].
     { cbn [fst snd]. split; [|destruct tail; cbn [List.rev app]; rewrite ?app_nil_r; reflexivity].
@@ -490,3 +490,84 @@ Section LWrites.
       cbn [fst snd]. rewrite Z.eqb_refl. lia.
   Qed.
 End LWrites.
+
+(* ---------- the sequence numbers of a list stay within a distance of the initial one that grows by at most
+   MAX_BATCH_NUM per command: pushes never run out of sequence space within 2^61 / 5000 commands ---------- *)
+Section LBound.
+  Variable compact : bool.
+
+  Definition LB (B : Z) (l : lcoll) : Prop :=
+    forall m, l_meta l = Some m -> list_initial_seq - B <= lm_head m /\ lm_tail m <= list_initial_seq + B.
+  Definition seq_room : Z := Z.min (list_initial_seq - list_min_seq) (list_max_seq - list_initial_seq).
+
+  Lemma LB_mono B B' l : B <= B' -> LB B l -> LB B' l.
+  Proof. intros H A m E. destruct (A m E). lia. Qed.
+  Lemma LB_empty B : LB B empty_lcoll.
+  Proof. intros m E. discriminate. Qed.
+
+  Lemma lstep_LB clock ts key c B l : RepL compact clock l -> LB B l -> 0 <= B ->
+    LB (B + max_batch_num) (fst (MapL.lstep compact ts key c l)).
+  Proof.
+    intros R A PB. assert (Keep : LB (B + max_batch_num) l) by (eapply LB_mono; [|exact A]; unfold max_batch_num; lia).
+    destruct c as [tail vs|tail|i x|start stop| |]; cbn [MapL.lstep]; try exact Keep.
+    - destruct (too_many vs) eqn:TM; [exact Keep|]. destruct (negb (key_ok key)); [exact Keep|].
+      destruct vs as [|x0 r0] eqn:EV; [exact Keep|]. rewrite <- EV. rewrite <- EV in TM.
+      match goal with |- context [if ?b then (l, RErr) else _] => destruct b end; [exact Keep|].
+      match goal with |- context [if existsb ?f ?p then _ else _] => destruct (existsb f p) end; [exact Keep|].
+      unfold lset_meta.
+      match goal with |- context [if ?b then None else _] => destruct b end; [exact Keep|].
+      match goal with |- context [if ?b then Some None else _] => destruct b end; cbn [fst l_meta]; [intros m E; discriminate|].
+      intros m E. injection E as E1. subst m. cbn [lm_head lm_tail].
+      assert (CN : Z.of_nat (length vs) <= max_batch_num) by (unfold too_many in TM; lia).
+      assert (C1 : 1 <= Z.of_nat (length vs)) by (rewrite EV; cbn [length]; lia).
+      clear EV.
+      unfold l_size, l_head, l_tail. destruct (l_meta l) as [m0|] eqn:E0.
+      + destruct (A m0 E0) as [a1 a2]. destruct (rl_meta _ _ _ R m0 E0) as (hle & _).
+        assert (0 <? lm_tail m0 - lm_head m0 + 1 = true) as -> by lia. destruct tail; cbv iota; lia.
+      + change (0 <? 0) with false. cbv iota. destruct tail; cbv iota; lia.
+    - destruct (negb (key_ok key)); [exact Keep|]. unfold l_exists, l_size, l_head, l_tail, l_ver.
+      destruct (l_meta l) as [m0|] eqn:E0; [|exact Keep]. cbn [negb]. cbv beta iota.
+      destruct (lm_tail m0 - lm_head m0 + 1 =? 0); [exact Keep|].
+      match goal with |- context [match lget ?a ?b ?c with _ => _ end] => destruct (lget a b c) end; [|exact Keep].
+      unfold lset_meta.
+      match goal with |- context [if ?b then None else _] => destruct b end; [exact Keep|].
+      match goal with |- context [if ?b then Some None else _] => destruct b end; cbn [fst l_meta]; [intros m E; discriminate|].
+      intros m E. injection E as E1. subst m. cbn [lm_head lm_tail].
+      destruct (A m0 E0) as [a1 a2]. destruct (rl_meta _ _ _ R m0 E0) as (hle & _). destruct tail; unfold max_batch_num; lia.
+    - destruct (negb (key_ok key)); [exact Keep|]. unfold l_exists. destruct (l_meta l) as [m0|] eqn:E0; [|exact Keep]. cbn [negb].
+      destruct (l_size l =? 0); [exact Keep|].
+      match goal with |- context [if ?b then (l, RErr) else _] => destruct b end; [exact Keep|].
+      cbn [fst l_meta]. intros m E. injection E as E1. subst m. destruct (A m0 E0). unfold max_batch_num; lia.
+    - destruct (negb (key_ok key)); [exact Keep|]. unfold l_exists. destruct (l_meta l) as [m0|] eqn:E0; [|exact Keep]. cbn [negb].
+      destruct (A m0 E0) as [a1 a2]. destruct (rl_meta _ _ _ R m0 E0) as (hle & _).
+      assert (Hs : l_size l = lm_tail m0 - lm_head m0 + 1) by (unfold l_size; rewrite E0; reflexivity).
+      assert (Hh : l_head l = lm_head m0) by (unfold l_head; rewrite E0; reflexivity).
+      set (llen := l_size l) in *.
+      set (start1 := if start <? 0 then llen + start else start).
+      set (stop1 := if stop <? 0 then llen + stop else stop).
+      set (start2 := if start1 <? 0 then 0 else start1).
+      destruct ((llen <=? start2) || (stop1 <? start2)) eqn:Emp.
+      + unfold ldelete. rewrite E0. destruct (l_size l =? 0); cbn [fst l_meta]; [exact Keep|intros m E; discriminate].
+      + set (stop2 := if llen <=? stop1 then llen - 1 else stop1).
+        assert (Bd : 0 <= start2 /\ start2 <= stop2 /\ stop2 < llen) by (unfold stop2, start2 in *; ifs; lia).
+        unfold lset_meta. rewrite Hh.
+        assert (lm_head m0 + stop2 - (lm_head m0 + start2) + 1 <? 0 = false) as -> by lia.
+        assert (lm_head m0 + stop2 - (lm_head m0 + start2) + 1 =? 0 = false) as -> by lia.
+        cbn [fst l_meta]. intros m E. injection E as E1. subst m. cbn [lm_head lm_tail]. unfold max_batch_num. lia.
+    - destruct (negb (key_ok key)); [exact Keep|]. unfold ldelete. destruct (l_meta l) as [m0|] eqn:E0; cbn [fst]; [|exact Keep].
+      destruct (l_size l =? 0); cbn [fst l_meta]; [exact Keep|intros m E; discriminate].
+  Qed.
+
+  (* within the bound a push has room *)
+  Lemma LB_push_in_bounds clock B l tail (vs : list bytes) : RepL compact clock l -> LB B l -> 0 <= B -> B + max_batch_num < seq_room ->
+    too_many vs = false -> vs <> [] -> push_in_bounds l tail (Z.of_nat (length vs)).
+  Proof.
+    intros R A PB Room TM NE. unfold push_in_bounds, push_last, seq_room in *.
+    assert (CN : Z.of_nat (length vs) <= max_batch_num) by (unfold too_many in TM; lia).
+    assert (C1 : 1 <= Z.of_nat (length vs)) by (destruct vs; [congruence|cbn [length]; lia]).
+    unfold l_size, l_head, l_tail. destruct (l_meta l) as [m0|] eqn:E0.
+    - destruct (A m0 E0) as [a1 a2]. destruct (rl_meta _ _ _ R m0 E0) as (hle & _).
+      assert (0 <? lm_tail m0 - lm_head m0 + 1 = true) as -> by lia. destruct tail; cbv iota; lia.
+    - change (0 <? 0) with false. cbv iota. destruct tail; cbv iota; lia.
+  Qed.
+End LBound.
